@@ -195,6 +195,8 @@ let dispatch (fn : string) (args : sx list) : sx =
   | "stats_divisions", [l] ->
       of_opt (of_pair (of_list of_z) (of_list of_nat)) (stats_divisions (get_list (get_pair get_z get_z) l))
   | "presorted_divisions", [l] -> of_opt (of_list of_z) (presorted_divisions (get_list (get_pair get_z get_z) l))
+  | "align_divisions", [ds] -> of_list of_z (align_divisions (get_list (get_list get_z) ds))
+  | "align_single", [ds] -> of_list of_z (align_single (get_list (get_list get_z) ds))
   | "loc_model", [divs; parts; lo; hi] ->
       let d = get_list get_z divs and ps = get_list (get_list get_z) parts and l = get_opt get_z lo and h = get_opt get_z hi in
       (* nested like the Coq tuple (start, stop, divisions, parts) = (((start, stop), divisions), parts) *)
